@@ -267,6 +267,31 @@ pub fn show_opt(m: &Option<Message<'_>>) -> String {
 /// A frame that does not decode to any specific message.
 pub fn unknown_frame(cx: &Cx) -> Frame<'static> {
     loop {
+        if cx.chance(1, 4) {
+            // a near miss of a one-byte command: the frame of a real message with one to three bytes
+            // appended (known type, first data byte a valid code, wrong length: still not a message)
+            let a = address(cx);
+            let m = match cx.draw(7) {
+                0 => Message::Hello(a),
+                1 => Message::QueryState(a),
+                2 => Message::Goodbye(a),
+                3 => Message::RequestOperation(a, ALL_OPS[cx.draw(6) as usize]),
+                4 => Message::ReportState(a, ALL_STATES[cx.draw(13) as usize]),
+                5 => Message::AckOperation(a, ALL_OPS[cx.draw(6) as usize]),
+                _ => Message::PixelsComplete(a),
+            };
+            let f = Frame::from(m);
+            let mut d = f.data().to_vec();
+            for _ in 0..1 + cx.draw(3) {
+                d.push(*cx.pick(&[0u8, 0x55, 0xFF, 0x01]));
+            }
+            let g = Frame::new(f.address(), f.message_type(), data(d));
+            // Not a message by construction (the one-byte commands have exactly one data byte); the tree's
+            // own conversion is deliberately not asked: a tree that takes such a frame for the command
+            // would filter out the very frames that show it.
+            cx.probe("unknown_frame_one_byte_command_with_trailing_bytes");
+            return g;
+        }
         let ty = *cx.pick(&[7u8, 0, 1, 2, 3, 4, 5, 6, 0x80, 0xFF]);
         let len = *cx.pick(&[0usize, 1, 2, 3, 16, 255]);
         let f = Frame::new(address(cx), MsgType(ty), data(payload(cx, len)));
